@@ -413,6 +413,7 @@ func main() {
 	writeIfChanged(filepath.Join(*out, "Helpers.lean"), genHelpers(cemi))
 	writeIfChanged(filepath.Join(*out, "Dpt.lean"), genDpt(dpt))
 	writeIfChanged(filepath.Join(*out, "Source.lean"), genSource(*repo, "Knx.Gen.Source"))
+	writeIfChanged(filepath.Join(*out, "Client.lean"), genClient(load(filepath.Join(*repo, "knx"))))
 	var st strings.Builder
 	st.WriteString("/- GENERATED by /verif/extract from /repo's working tree — do not edit.\n   What the extractor could not follow in the source as it is now. -/\nnamespace Knx.Gen\n\ndef extractionIncomplete : List String := [")
 	for i, x := range incomplete {
